@@ -120,6 +120,7 @@ fn cfgs_for(prop: &str, n: usize) -> Vec<RunCfg> {
                             instant: vec![],
                             coop: false,
                             drop_sender: false,
+                            pre_interrupted: 0,
                         });
                     }
                 }
